@@ -163,16 +163,19 @@ theorem error_never_cleared (cfg : CheckCfg) (n : Node) (st : CState) (h : ¬ Go
 theorem colls_balanced (cfg : CheckCfg) (n : Node) (st : CState) : (visit cfg n st).2.2.colls = st.colls :=
   (visit_spec cfg n st).1
 
-/-! ## where the code as it is deviates from the documented rules (witnesses)
+/-! ## where the code deviates (or deviated) from the documented rules: witnesses
 
-`TDefects.asIs` are the rule flags of /repo's current code.  Harness keys: `c03:ill-typed-accepted:…`,
-`c03:dynamic-type-differs:…`, `c03:asbool-on-nil-type-panics`, `c03:closure-with-nil-typed-body-panics`. -/
+`TDefects.asIs` are the rule flags of /repo's current code, `TDefects.asWas` those of the pinned snapshot.
+Repaired in /repo since the snapshot: literal retyping to any parameter type (6162013), `AsBool` on the nil
+type (b6f8e35), closure with a nil-typed body (106fb38) — their witnesses are statements about `asWas`.
+Still present (pinned by /repo's own tests, recorded in known_findings.json): the loose index rule and the
+static slice types of `filter` / `map` — their witnesses are statements about `asIs`. -/
 
 def _root_.ExprModel.CheckResult.okType : CheckResult → Option OTy
   | .ok _ τ => some τ
   | _ => none
 
-def _root_.ExprModel.CheckResult.errClass : CheckResult → Option ErrClass
+def _root_.ExprModel.CheckResult.errClass : CheckResult → Option CheckErrClass
   | .error _ c _ => some c
   | _ => none
 
@@ -202,13 +205,14 @@ def exprFilter : Node := .builtin {} "filter" [ident "Ints", .closure {} (.binar
 /-- `map(Ints, {nil})` -/
 def exprMapNil : Node := .builtin {} "map" [ident "Ints", .closure {} (.nil {})]
 
-/-- `c03:ill-typed-accepted:int-literal-to-non-numeric-param`: `Fs(1)` with `Fs func(string) string` is
-accepted with type string (the literal is "retyped" to string; the call then fails in `reflect.Call`);
-by the documented rules it is ill typed and the repaired checker reports the argument. -/
+/-- `c03:ill-typed-accepted:int-literal-to-non-numeric-param` (fixed by 6162013): at the snapshot `Fs(1)`
+with `Fs func(string) string` was accepted with type string (the literal was "retyped" to string; the call
+then failed in `reflect.Call`); by the documented rules it is ill typed, and the current checker reports
+the argument. -/
 theorem retype_witness :
-    (check (cfgWith .asIs) exprFs1).okType = some (some .string) ∧
-    ¬ WellTyped (cfgWith .asIs) exprFs1 ∧
-    (check (cfgWith .repaired) exprFs1).errClass = some .badArgument := by
+    (check (cfgWith .asWas) exprFs1).okType = some (some .string) ∧
+    ¬ WellTyped (cfgWith .asWas) exprFs1 ∧
+    (check (cfgWith .asIs) exprFs1).errClass = some .badArgument := by
   decide +kernel
 
 /-- `c03:ill-typed-accepted:bad-index`: an integer index on a string-keyed map and a string index on a
@@ -228,13 +232,34 @@ theorem static_slice_witness :
     (check (cfgWith .repaired) exprFilter).okType = some arrayTy := by
   decide +kernel
 
-/-- `c03:asbool-on-nil-type-panics`, `c03:closure-with-nil-typed-body-panics`: two expressions on which
-`Check` panics instead of answering. -/
+/-- `c03:asbool-on-nil-type-panics` (fixed by b6f8e35), `c03:closure-with-nil-typed-body-panics` (fixed by
+106fb38): two expressions on which `Check` panicked at the snapshot instead of answering. -/
 theorem panic_witness :
-    (check (cfgWith .asIs .bool) (.nil {})).isPanic = true ∧
-    (check (cfgWith .repaired .bool) (.nil {})).errClass = some .expected ∧
-    (check (cfgWith .asIs) exprMapNil).isPanic = true ∧
-    (check (cfgWith .repaired) exprMapNil).okType = some arrayTy := by
+    (check (cfgWith .asWas .bool) (.nil {})).isPanic = true ∧
+    (check (cfgWith .asIs .bool) (.nil {})).errClass = some .expected ∧
+    (check (cfgWith .asWas) exprMapNil).isPanic = true ∧
+    (check (cfgWith .asIs) exprMapNil).okType = some (some (.slice interfaceType)) := by
+  decide +kernel
+
+/-- `(MSI)[:]` -/
+def exprSliceMap : Node := .slice {} (ident "MSI") none none
+/-- `1.5 in MSI` -/
+def exprInMap : Node := .binary {} "in" (.float {} 0) (ident "MSI")
+/-- `{(1): 2}` -/
+def exprMapKey : Node := .map {} [.pair {} (.int {} 1) (.int {} 2)]
+
+/-- `c03:static-program-type-error:slice-of-map`, `…:in-map-key`, `…:map-literal-key`: three statically
+typed expressions the checker accepts and the VM can only fail on (`cannot slice`, `MapIndex: value of
+type float64 is not assignable to type string`, `interface {} is int, not string`); the documented
+rules reject them. -/
+theorem accepted_type_errors_witness :
+    (check (cfgWith .asIs) exprSliceMap).okType = some (some (.map .string tInt)) ∧
+    (check (cfgWith .asIs) exprInMap).okType = some boolTy ∧
+    (check (cfgWith .asIs) exprMapKey).okType = some mapTy ∧
+    Static (cfgWith .asIs) exprSliceMap ∧ Static (cfgWith .asIs) exprInMap ∧
+    (check (cfgWith .repaired) exprSliceMap).errClass = some .notSliceable ∧
+    (check (cfgWith .repaired) exprInMap).errClass = some .mismatchBinary ∧
+    (check (cfgWith .repaired) exprMapKey).errClass = some .badMapKey := by
   decide +kernel
 
 /-- the full rejection statement for the code's own flags … -/
@@ -244,19 +269,19 @@ def check_rejects_goal (dt : TDefects) : Prop :=
 theorem check_rejects_repaired : check_rejects_goal .repaired :=
   fun cfg n h hill => check_rejects cfg n h hill
 
-/-- … fails today: `Fs(1)` -/
+/-- … still fails for the current code because of the loose index rule: `MSI[1]` -/
 theorem check_rejects_asIs_false : ¬ check_rejects_goal .asIs := by
   intro h
-  have hw : ¬ WellTyped (cfgWith .asIs) exprFs1 := by decide +kernel
-  have := h (cfgWith .asIs) exprFs1 rfl hw
-  have hok : ∃ n' τ, check (cfgWith .asIs) exprFs1 = .ok n' τ := by
-    cases hc : check (cfgWith .asIs) exprFs1 with
+  have hw : ¬ WellTyped (cfgWith .asIs) exprMsi1 := by decide +kernel
+  have := h (cfgWith .asIs) exprMsi1 rfl hw
+  have hok : ∃ n' τ, check (cfgWith .asIs) exprMsi1 = .ok n' τ := by
+    cases hc : check (cfgWith .asIs) exprMsi1 with
     | ok n' τ => exact ⟨n', τ, rfl⟩
     | error l c n' =>
-      have : (check (cfgWith .asIs) exprFs1).okType = some (some .string) := by decide +kernel
+      have : (check (cfgWith .asIs) exprMsi1).okType = some (some tInt) := by decide +kernel
       rw [hc] at this; cases this
     | panic m =>
-      have : (check (cfgWith .asIs) exprFs1).okType = some (some .string) := by decide +kernel
+      have : (check (cfgWith .asIs) exprMsi1).okType = some (some tInt) := by decide +kernel
       rw [hc] at this; cases this
   obtain ⟨n', τ, hc⟩ := hok
   exact this n' τ hc
